@@ -26,12 +26,15 @@ def _build():
         return os.path.join(tgt, 'debug', 'verif-replay'), ''
 
 
-def _run(args, timeout=600):
+def _run(args, timeout=600, skip=None):
     exe, err = _build()
     if exe is None:
         return {'found': False, 'error': True, 'how': 'replay crate failed to build against the current tree: ' + err}
     try:
-        p = subprocess.run([exe] + args, capture_output=True, text=True, timeout=timeout)
+        env = dict(os.environ)
+        if skip:
+            env['VERIF_SKIP'] = json.dumps(skip)
+        p = subprocess.run([exe] + args, capture_output=True, text=True, timeout=timeout, env=env)
     except subprocess.TimeoutExpired:
         return {'found': False, 'error': True, 'how': 'replay search timed out'}
     for line in reversed(p.stdout.strip().split('\n')):
@@ -43,7 +46,7 @@ def _run(args, timeout=600):
     return {'found': False, 'error': True, 'how': 'replay produced no result: ' + (p.stderr[-500:] or p.stdout[-500:])}
 
 
-def search(pid, failure, seed):
+def search(pid, failure, seed, skip=None):
     """Find a concrete input violating the contract of failure['fn'] on the real code."""
     if failure.get('region') == 'kani':
         if failure.get('cex'):
@@ -54,12 +57,15 @@ def search(pid, failure, seed):
                     'expected': failure.get('clause'), 'observed': failure.get('msg'),
                     'how': 'cargo kani --concrete-playback=print --harness ' + failure['fn']}
         return {'found': False, 'how': 'Kani reported the failed check without a concrete counterexample'}
-    return _run(['search', failure['fn'].split('::')[-1], str(seed)])
+    return _run(['search', failure['fn'].split('::')[-1], str(seed)], skip=skip)
 
 
 def confirm_finding(of):
-    r = _run(['confirm', of['id']])
-    return {'confirmed': bool(r.get('found')), 'why': r.get('how', '')}
+    if of.get('e3') and of.get('input') is not None:
+        r = _run(['input', of['e3'], json.dumps(of['input'])])
+    else:
+        r = _run(['confirm', of['id']])
+    return {'confirmed': bool(r.get('found')), 'why': r.get('how', ''), 'observed': r.get('observed')}
 
 
 def replay_file(path):
